@@ -31,7 +31,7 @@ def one(kind, sid, vwt, slot):
             prop = json.load(open(os.path.join(d, "meta.json"))).get("property", prop)
         except Exception:  # noqa: BLE001
             pass
-    wt = f"/tmp/selftest-repo-{slot}"
+    wt = os.environ.get("SELFTEST_REPO_PREFIX", "/tmp/selftest-repo-") + str(slot)
     sh(f"git -C /repo worktree remove --force {wt}")
     r = sh(f"git -C /repo worktree add -q --detach {wt} HEAD && git -C {wt} apply {patch}")
     if r.returncode != 0:
